@@ -19,15 +19,15 @@ ASSUMPTIONS = [
     "reals, not floats; contraction off; isclose/allclose read as exact equality",
 ]
 BOUNDS = {"quick": "3 envelopes (Fock cut-off 2); Fock values: equal labels 0/0/0 and 1/1/1, independent vectors, independent matrices; "
-                   "23 actions (incl. envelope-level calls naming the Fock of another envelope)",
+                   "24 actions (incl. a merge of two composite envelopes, envelope-level calls naming the Fock of another envelope)",
           "thorough": "same"}
 OPTS = {"quick": {"max_paths": 64, "timeout_ms": 10000, "case_timeout_s": 900, "exact_close": True},
         "thorough": {"max_paths": 128, "timeout_ms": 30000, "case_timeout_s": 1800, "exact_close": True}}
 
 
-def _world(kind):
+def _world(kind, split=False):
     S = cm.subs(3, 0, 2)
-    comp = [["e0", "e1", "e2"]]
+    comp = [["e0"], ["e1", "e2"]] if split else [["e0", "e1", "e2"]]
     if kind.startswith("label"):
         lab = int(kind[-1])
         blocks = [{"kind": "own", "sub": f"f{i}", "level": "L", "label": lab} for i in range(3)]
@@ -42,6 +42,8 @@ ACTIONS = ["measure-all-sep", "measure-all", "measure-second-sep-nd", "measure-s
            "beamsplitter", "resize-second", "kraus-second", "povm-second", "trace_out-second", "op-second", "kraus-both", "povm-both",
            "reorder-both", "expand-second",
            # an envelope-level call on e0 that names the Fock of ANOTHER envelope (holding an equal value on one side of the fork)
+           # two composite envelopes whose Focks hold equal values are merged: every subsystem is registered once, by identity
+           "merge-register",
            "foreign-kraus", "foreign-povm", "foreign-op", "foreign-measure", "foreign-reorder", "foreign-trace_out"]
 
 
@@ -64,7 +66,7 @@ def scenario(B, case):
     from symx.world import World
 
     act = case["act"]
-    w = _world(case["values"])
+    w = _world(case["values"], split=(act == "merge-register"))
     if act.startswith("measure"):
         targets = ["f0", "f1", "f2"] if "all" in act else ["f1"]
         c = {"world": w, "targets": targets, "entry": "composite", "sep": "sep" in act, "dest": not act.endswith("-nd")}
@@ -75,6 +77,25 @@ def scenario(B, case):
 
         return _foreign(B, W, {"foreign": "f1", "act": act.split("-", 1)[1]}, tag="C18")
     h = W.h
+    if act == "merge-register":
+        subs = [W.sub(n) for n in ("f0", "p0", "f1", "p1", "f2", "p2")]
+        pre = W.snapshot()
+        ce = h.CompositeEnvelope(W.ces[0], W.ces[1])
+        W.ces.append(ce)
+        reg = list(ce.state_objs)
+        for x in subs:
+            n = sum(1 for r in reg if r is x)
+            B.require_structural(n == 1, f"C18: after merging two composite envelopes {W.name_of(x)} is registered {n} times "
+                                         f"(registered: {[W.name_of(r) for r in reg]})")
+        f1 = W.sub("f1")
+        d0 = int(W.sub("f0").dimensions)
+        ret = ce.resize_fock(4, f1)
+        post = W.snapshot()
+        B.require_structural(bool(ret) and int(f1.dimensions) == 4 and int(W.sub("f0").dimensions) == d0,
+                             f"C18: resize_fock(4, f1) through the merged composite -> {ret!r}; f0={W.sub('f0').dimensions}, f1={f1.dimensions}")
+        checks.compare_unchanged(B, W, pre, post, "C18/merge-register")
+        checks.check_wf(B, W, post, "C18/wf", unit=False, numeric=False)
+        return
     ce = W.ces[0]
     f0, f1, f2 = W.sub("f0"), W.sub("f1"), W.sub("f2")
     p0, p1 = W.sub("p0"), W.sub("p1")
